@@ -169,9 +169,30 @@ func (ex *Exec) paramType(n string) types.Type {
 // localByName finds the current value of a local variable (Alloc with that comment) of a frame.
 func (ex *Exec) localByName(fr *Frame, st *State, name string) (TV, bool) {
 	var best *ssa.Alloc
+	later := func(a, b *ssa.Alloc) bool { // deterministic: source position, then block/instruction order
+		if a.Pos() != b.Pos() {
+			return a.Pos() > b.Pos()
+		}
+		if a.Block().Index != b.Block().Index {
+			return a.Block().Index > b.Block().Index
+		}
+		return allocIndex(a) > allocIndex(b)
+	}
 	for k := range st.cells {
 		if k.frame == fr.id && k.a.Comment == name {
-			if best == nil || k.a.Pos() > best.Pos() {
+			if name == "rangeindex" && ex.curLoop != nil {
+				// the hidden index of the range loop at hand lives in that loop's pre-header
+				pre := false
+				for _, s := range k.a.Block().Succs {
+					if s == ex.curLoop.header && !ex.curLoop.blocks[k.a.Block()] {
+						pre = true
+					}
+				}
+				if !pre {
+					continue
+				}
+			}
+			if best == nil || later(k.a, best) {
 				best = k.a
 			}
 		}
@@ -903,4 +924,13 @@ func (ex *Exec) bytesToStr(st *State, s SliceV) Term {
 	ex.vc.DeclareFun("slen", []Sort{SStr}, SInt)
 	r := app(SStr, "str_of_bytes", Sel(h, s.Ptr), s.Off, s.Len)
 	return r
+}
+
+func allocIndex(a *ssa.Alloc) int {
+	for i, in := range a.Block().Instrs {
+		if in == ssa.Instruction(a) {
+			return i
+		}
+	}
+	return -1
 }
